@@ -233,6 +233,8 @@ LEVEL_TEXT[P] = ("Bounded model checking of the write step: Framebuf::rasterize 
 H(P, "c06", "c06_two_spans_commute", ("bare",), "two arbitrary spans (x0,n,z0,dz,colour) on a W-px row (W = 2 quick, 3 thorough)", "A;B == B;A (depth always, colour unless exact tie); no NaN", unwind=5, est=500, cap=1500)
 H(P, "c06", "c06_nearest_wins", ("bare",), "two arbitrary spans, a symbolic pixel", "the pixel holds the larger reciprocal depth among the covering fragments and that fragment's colour; failing fragments write nothing", unwind=5, est=500, cap=1500)
 H(P, "c06", "c06_depth_test_semantics", ("bare",), "every (new, curr) float pair incl. NaN/inf x {None, Less, Equal, Greater}", "None passes; Less <=> new > curr (reciprocal depth); default is Less", est=5)
+H(P, "c02", "c06_depth_sort_disjoint_ranges", ("bare",), "3 triangles x 3 arbitrary integer vertex depths in [-8,8], both sort directions", "permutation; any two triangles with disjoint depth ranges come out in depth order (tolerant of the sort key: centroid, nearest or farthest vertex)", unwind=12, est=200, cap=900,
+  assumes=["reached through the cfg(kani) hook render::verif_hooks::depth_sort (a plain wrapper)"])
 H(P, "c02", "c06_depth_sort_orders", ("bare",), "3 triangles, distinct integer depth sums in [-8,8], arbitrary integer x, y in [-8,8] per triangle, w = 1, both sort directions", "permutation; FrontToBack ascending, BackToFront descending", unwind=12, est=60,
   assumes=["reached through the cfg(kani) hook render::verif_hooks::depth_sort (a plain wrapper)"])
 
@@ -295,8 +297,8 @@ H(P, "c08", "c08_perspective_rejects", ("bare",), "finite parameters with f<=0 o
 H(P, "c08", "c08_orthographic_dyadic", ("bare",), "integer lbn in [-8,8]^3, extents 2^[0,4]", "corners -> (-1,-1,-1,1)/(1,1,1,1), centre -> origin", unwind=6, est=120)
 H(P, "c08", "c08_viewport_matrix", ("bare",), "all l<=r<=4096, t<=b<=4096; finite z", "(-1,-1)->(l,t); (1,1)->(r,b); centre->centre; z passes", unwind=6, est=60)
 H(P, "c08", "c08_rect_algebra", ("bare",), "two rects with optional bounds <= 8, probe point <= 9", "contains == membership; intersect == conjunction; is_empty/width/height", est=60)
-for n, hd in [("level", "azimuth 1/8 turn, level"), ("up", "azimuth 1/4 turn, pitched up 30 degrees"), ("down", "azimuth -3/8 turn, pitched down 60 degrees")]:
-    H(P, "c08", f"c08_first_person_translate_{n}", ("libm",), f"FirstPerson with the concrete heading {hd} (libm sin/cos evaluated by the engine on constants) x every position and displacement with finite components <= 1024", "translate(delta): moves delta.y along +y, delta.z along the horizontal heading (cos az, 0, sin az) regardless of pitch, |delta.x| along the horizontal perpendicular (tolerance 1e-2)", unwind=8, est=300, cap=1500)
+for n, hd, tr in [("level", "azimuth 1/2 turn, level", None), ("up", "azimuth 1/4 turn, pitched up 30 degrees", None), ("down", "azimuth 0, pitched down 60 degrees", None), ("diagonal", "azimuth 1/8 turn, pitched up 30 degrees (no zero in the basis)", ("thorough",))]:
+    H(P, "c08", f"c08_first_person_translate_{n}", ("libm",), f"FirstPerson with the concrete heading {hd} (libm sin/cos evaluated by the engine on constants) x every position and displacement with finite components <= 1024", "translate(delta): moves delta.y along +y, delta.z along the horizontal heading (cos az, 0, sin az) regardless of pitch, |delta.x| along the horizontal perpendicular (tolerance 1e-2)", unwind=8, est=300, cap=(2700 if tr else 1500), **({"tiers": tr} if tr else {}))
 H(P, "c08", "c08_rect_from_bounds", ("bare",), "Rect::from((H,V)) with every combination of Included/Excluded/Unbounded start and end bounds, values <= 8, probe points <= 10", "contains(x,y) == H.contains(x) && V.contains(y)", est=60)
 H(P, "c08", "c08_camera_viewport", ("bare",), "frame <= 64x64, requested bounds <= 100, forms (a..b,c..d) / (a..,..d) / vec..vec", "dims and NDC-corner images are those of bounds ∩ frame; always inside the frame; empty intersection => zero area", unwind=6, est=120)
 H(P, "c08", "c08_camera_projection", ("bare",), "dims <= 64x64, f in 2^[-2,2], integer view translation", "perspective(aspect = w/h); world_to_project == mode.then(project); orthographic passes the box", unwind=6, est=200, cap=900)
